@@ -7,7 +7,7 @@ from pv import env, exact, gens
 
 ID = "C11"
 LEVEL = "exploration"
-N = {"quick": 700, "thorough": 12000}
+N = {"quick": 2800, "thorough": 12000}
 RULE = ("cases: (constraint list, dyadic behaviour) with the behaviour placed on / just inside / just outside (2^-6) a chosen "
         "constraint boundary or random, behaviours missing a constrained variable, behaviours with extra variables, emptiness "
         "queries on feasible / infeasible / thin systems (margins 0, 1e-3, 1e-2, 1), and refinement-consistency pairs L within R; "
